@@ -15,6 +15,8 @@
 //	cd /verif && GOFLAGS=-mod=mod GOPROXY=off go test ./notes/repro/C18_dialasync_double_done/
 //
 // The test FAILS while the defect is present.
+// Status: repaired in /repo by "fix: a dial that cannot be registered gives back one connection slot,
+// not two" (f4ad265); the test passes since then.
 package repro
 
 import (
